@@ -37,7 +37,11 @@ ASSUMPTIONS = ["convergence bound B = max(TTLs) + max(cyclic, refresh) + initial
 FLOORS = {"quick": {"scripts": 5000, "final_checks_watcher": 4000, "final_checks_offerer": 4000, "alternation_events": 50000,
                     "datagrams_exchanged": 150000, "crashes": 2500, "restarts": 2000, "graceful_stops": 2000, "net_fault_windows": 1200,
                     "single_disturbance_enumerated": 1500, "placements_same_instant": 1500, "infinite_ttl_scripts": 300,
-                    "converged_offered_and_subscribed": 2000, "converged_withdrawn": 800}}
+                    "converged_offered_and_subscribed": 2000, "converged_withdrawn": 800,
+                    "mesh_scenarios": 100, "mesh_final_checks_watcher": 150, "mesh_final_checks_offerer": 150, "mesh_alternation_events": 1000}}
+# system-level shards: the mesh workload of pv/mesh.py under this property's boundary monitors (reports of other monitors are dropped)
+MESH = {"want": ("converge",), "claim": ("mesh:watcher-does-not-converge", "mesh:offerer-does-not-converge", "mesh:discovery-listener-history", "mesh:subscription-listener-history"),
+        "quick": (2, 60), "thorough": (16, 1500)}
 
 FOREVER = 0xFFFFFF
 O_ADDR = ("10.0.4.1", 30490)
